@@ -394,7 +394,8 @@ fn layout_script(r: &mut SimRng) -> Vec<PyCall> {
         _ => r.range(30, 100_000) as u32,
     };
     let seed = r.next();
-    let step = 1000u64;
+    // (small step sizes make steps oversized: more instructions than time units)
+    let step = *r.pick(&[1000u64, 1000, 1000, 1000, 3, 1]);
     let mut g = G { r, m: Model::new(0, tick, true, Tie::Fifo), tick, centre, calls: vec![], snaps: 0, whale: [0, 0], depth: 13 };
     let ctor = vec![json!(seed), json!(0), json!(tick), json!(step), json!(true)];
     g.calls.push(PyCall { k: "new_env".into(), o: "e".into(), m: String::new(), a: ctor.clone() });
@@ -468,6 +469,16 @@ fn layout_script(r: &mut SimRng) -> Vec<PyCall> {
             let acts: Vec<u32> = vec![1; nb];
             let oids: Vec<u64> = vec![0; nb];
             g.calls.push(PyCall { k: "np_instructions".into(), o: "n".into(), m: String::new(), a: vec![json!(acts), json!(sides), json!(vols), json!(traders), json!(prices), json!(oids)] });
+        }
+        // a late observer: the arrays are read after the submissions and before the step (they must still describe the book
+        // as of the previous step), and again after it
+        if g.r.chance(0.2) {
+            for m in ["level_1_data_array", "level_2_data_array"] {
+                g.calls.push(call("e", m, vec![]));
+            }
+            for m in ["level_1_data", "level_2_data"] {
+                g.calls.push(call("n", m, vec![]));
+            }
         }
         // cancel an old order in both (ids are the same on both sides: same submission sequence)
         let n_before = g.m.orders.len() - nb;
